@@ -25,7 +25,7 @@ def _fails(prop_id, spec, sc, rule):
     from . import driver
     if not _valid(spec):
         return False, None
-    _, st, pay = runner.run_one(driver.replay_job, {"prop": prop_id, "spec": spec, "scenario": sc}, wall=90)
+    _, st, pay = runner.run_one(driver.replay_job, {"prop": prop_id, "spec": spec, "scenario": sc, "rule": rule}, wall=90)
     if st != "ok":
         return False, None
     for v in pay["violations"]:
